@@ -22,7 +22,7 @@ P = {
          ['the offset region itself (trigonometry, floating point), DoSquare/DoMiter/DoRound geometry'], '5 C06'),
  'C07': ('Proof that per-path state of DoGroupOffset (end type, delta) is re-derived from the group for every path, and of OffsetOpenPath (caps by end type at both ends, forward pass, normal reversal, backward pass); arc step set up for round ends.',
          ['stroke geometry, +-delta symmetry, OffsetOpenJoined'], '5 C07'),
- 'C08': ('Proof of GetLocation (exact side / inside classification), Rect64 predicates, location arithmetic, the Execute shortcuts (inside paths returned unchanged, outside paths dropped), and RectClip64::ExecuteInternal: corner insertion indexes only sides, corner loops terminate, indices in range; RectClip64::Add ring building; Path1ContainsPath2 vote.',
+ 'C08': ('Proof of GetLocation (exact side / inside classification), Rect64 predicates, location arithmetic, the Execute shortcuts (inside paths returned unchanged, outside paths dropped), and RectClip64::ExecuteInternal: corner insertion indexes only sides, corner loops terminate, indices in range; RectClip64::Add ring building; Path1ContainsPath2 vote; start state of the location machine; bounded CheckEdges registration (a vertex is registered on a side exactly when its arriving segment runs along it).',
          ['what the location state machine outputs beyond safety, TidyEdges, intersection points, winding equality'], '5 C08'),
  'C09': ('Proof of the shared rectangle kernel incl. GetNextLocation (loop contracts), RectClipLines64::Execute shortcuts and per-polyline scratch reset, ExecuteInternal call trace (walk starts at segment 1); bounded GetPath (ring order, two-point pieces kept).',
          ['piece positions and lengths (intersection points)'], '5 C09'),
@@ -30,7 +30,7 @@ P = {
          ['termination and memory safety of whole operations; leaks; the allocation-failure clause (no exceptions in the verified C dialect)'], '5 C10'),
  'C11': ('Proof of CheckPrecisionRange (both exception configurations), ScalePath/ScalePaths error reporting, PathsD entry points check precision first and return empty on error (call-trace), export-layer argument validation; AddLocalMaxPoly clears succeeded_ only on a front/back mismatch without an open end.',
          ['"Execute returns true for every input" (needs a global sweep invariant)'], '5 C11'),
- 'C12': ('Proof that CleanUp/Clear reset every scratch member, that RectClip64::Execute starts every path with empty scratch state, the DoGroupOffset per-path invariant, and AddReuseableData (copies every local minimum, container untouched).',
+ 'C12': ('Proof that CleanUp/Clear reset every scratch member, that RectClip64::Execute starts every path with empty scratch state, the DoGroupOffset per-path invariant, and AddReuseableData (copies every local minimum, container untouched); Clipper64::Execute empties the solutions first and cleans up last; ClipperOffset::Execute overloads start from fresh targets and release the temporary solution exactly once.',
          ['bit-identical reruns, arbitrary call sequences, reusable-container sharing'], '5 C12'),
  'C13': ('Proof that LocMinSorter is the strict weak order (y desc, x asc) and IntersectListSort its counterpart; IsValidAelOrder orders two edges that are apart at the scanline by x alone; TopX/GetDx free of integer overflow; GetSegmentIntersectPt invariant under translation (determinant and parameter from differences only); bounded check that AddPaths_ flags exactly the cyclic local extrema independent of start vertex, duplicates and closing vertex.',
          ['order-independence of the sweep, all algebraic identities and transformations'], '5 C13'),
@@ -46,7 +46,7 @@ P = {
          ['accuracy of GetSegmentIntersectPt, GetClosestPointOnSegment, Area (floating-point multiply/divide is beyond every installed back end); the 64x64 multiplier itself (assumption A1/A2)'], '5 C18'),
  'C19': ('Minkowski quad construction (indices, closing edge iff closed, count) and forwarding to Union(NonZero); empty input => empty result.',
          ['that the union of the quads is right (= C01)'], '5 C19'),
- 'C20': ('Proof (loop contracts, unbounded length) for GetNext/GetPrior, RDP/RamerDouglasPeucker, TrimCollinear (in-order subsequence, open end points kept, index safety), GetBounds (int64 and double) and TranslatePath (defining equations); bounded SimplifyPath and RDP epsilon clause.',
+ 'C20': ('Proof (loop contracts, unbounded length) for GetNext/GetPrior, RDP/RamerDouglasPeucker, TrimCollinear (in-order subsequence, open end points kept, index safety), GetBounds (int64 and double), TranslatePath and StripNearEqual (defining equations); bounded SimplifyPath and RDP epsilon clause.',
          ['Length, Ellipse, area preservation, StripNearEqual/StripDuplicates (floating point / std::unique)'], '5 C20'),
 }
 NA = {
